@@ -310,6 +310,11 @@ type c20script struct {
 	// gcBefore >= 0: injected fault - a full garbage collection, finalizers included, runs right before this call of
 	// the consumer (the pull-based iterators of the library carry a finalizer that stops their coroutine)
 	gcBefore int
+	// extendAt >= 0 (one-sided finite pipelines only): queue-style use - after this many delivered elements the
+	// consumer extends the partly read iterator (Concat / Appended at the tail, or a Concat in front of the rest)
+	// and goes on reading the result
+	extendAt   int
+	extendKind int
 }
 
 func c20Script(r *sim.Run, maxDemand int) c20script {
@@ -323,8 +328,13 @@ func c20Script(r *sim.Run, maxDemand int) c20script {
 		}))
 	}
 	s.blindEnd = r.Bool(1, 3, "blindEnd")
+	s.extendAt = -1
+	if r.Bool(1, 5, "extendWhileReading") {
+		s.extendAt = r.Choose(maxDemand+1, "extendAt")
+		s.extendKind = r.Choose(3, "extendKind")
+	}
 	s.gcBefore = -1
-	if r.Bool(1, 8, "gcFault") {
+	if r.Bool(1, 40, "gcFault") {
 		s.gcBefore = r.Choose(2*maxDemand+3, "gcBefore")
 	}
 	return s
@@ -339,6 +349,8 @@ type c20side struct {
 	got      []int
 	drained  bool
 	calls    int
+	// extendable: the script's extendAt applies (one-sided pipelines over a finite source)
+	extendable bool
 }
 
 // consume follows the script; every library call is preceded by a scheduling point.
@@ -361,6 +373,25 @@ func (c *c20side) consume(r *sim.Run, t *sim.Task, onCall func()) {
 	for i := 0; i < c.sc.demand; i++ {
 		if !c.complete && i >= len(c.ref) {
 			return
+		}
+		if c.extendable && i == c.sc.extendAt && i <= len(c.ref) {
+			extra := []int{7001 + i, 7002 + i}
+			rest := append([]int(nil), c.ref[i:]...)
+			switch c.sc.extendKind {
+			case 0:
+				c.it = c.it.Concat(fp.IteratorOfSeq(extra))
+				c.ref = append(append(append([]int(nil), c.ref[:i]...), rest...), extra...)
+				c.name += ".Concat(2 more) after " + fmt.Sprint(i) + " delivered"
+			case 1:
+				c.it = c.it.Appended(extra[0])
+				c.ref = append(append(append([]int(nil), c.ref[:i]...), rest...), extra[0])
+				c.name += ".Appended(1 more) after " + fmt.Sprint(i) + " delivered"
+			default:
+				c.it = fp.IteratorOfSeq(extra).Concat(c.it)
+				c.ref = append(append(append([]int(nil), c.ref[:i]...), extra...), rest...)
+				c.name += " put behind 2 new elements after " + fmt.Sprint(i) + " delivered"
+			}
+			r.Probe("partly-read-iterators-extended")
 		}
 		more := i < len(c.ref)
 		nHas := c.sc.has[i]
@@ -644,7 +675,7 @@ func c20OneSided(r *sim.Run) {
 	if r.Failed() {
 		return
 	}
-	side := &c20side{name: desc, it: it, ref: ref, complete: true, sc: c20Script(r, len(ref)+1)}
+	side := &c20side{name: desc, it: it, ref: ref, complete: true, sc: c20Script(r, len(ref)+3), extendable: true}
 	r.MixFingerprintS(desc)
 	r.MixFingerprintS(fmt.Sprint(xs, side.sc))
 	r.Logf("pipeline: %s over %v, script %v, reference %v", desc, xs, side.sc, ref)
